@@ -4105,8 +4105,11 @@ namespace gch
         assert (! (first == last) && "The range should not be empty.");
 
         // Ensure we use this specific overload to give a strong exception guarantee for 1 element.
+        // The strong policy also rolls back a partial insertion if an element cannot be appended
+        // (eg. `std::length_error` when the range turns out to be longer than `max_size ()`
+        // allows, which cannot be known in advance for a single-pass range).
         if (end_ptr () == pos)
-          return append_range (first, last, std::input_iterator_tag { });
+          return append_range<strong_exception_policy> (first, last, std::input_iterator_tag { });
 
         using iterator_cat = typename std::iterator_traits<InputIt>::iterator_category;
         small_vector_base tmp (first, last, iterator_cat { }, allocator_ref ());
